@@ -105,6 +105,8 @@ func Edit(_ *log.Logger, inputArchive string, newHeaderJSONFile string, newMetad
 	}
 	defer outfile.Close()
 
+	// the rewritten file lays the sections out back to back after the header
+	newHeader.RootOffset = HeaderV3LenBytes
 	newHeader.MetadataOffset = newHeader.RootOffset + newHeader.RootLength
 	newHeader.MetadataLength = uint64(len(metadataBytes))
 	newHeader.LeafDirectoryOffset = newHeader.MetadataOffset + newHeader.MetadataLength
